@@ -118,6 +118,10 @@ func main() {
 		if r.Intn(5) == 0 {
 			gasLimit = uint64(21000 + r.Intn(40000))
 		}
+		big_ := fork == "amsterdam" && r.Intn(3) == 0 // blocks that admit transactions above the EIP-7825 cap: non-empty state reservoir
+		if big_ {
+			gasLimit = uint64(20_000_000 + r.Intn(40_000_000))
+		}
 		header := &types.Header{Number: big.NewInt(1), Time: 10, GasLimit: gasLimit, BaseFee: big.NewInt(7), Difficulty: big.NewInt(0),
 			Coinbase: coinbase, ExcessBlobGas: u64p(0), BlobGasUsed: u64p(0), ParentBeaconRoot: &common.Hash{}}
 		rnd := common.Hash{1}
@@ -209,6 +213,9 @@ func main() {
 				}
 			default:
 				limit = max(intrinsic, floor) + uint64(r.Intn(400000))
+			}
+			if big_ && r.Intn(2) == 0 {
+				limit = params.MaxTxGas - 2000 + uint64(r.Intn(5_000_000))
 			}
 			msg := &core.Message{To: to, From: from, Nonce: nonces[from], Value: uint256.NewInt(0), GasLimit: limit,
 				GasPrice: uint256.NewInt(9), GasFeeCap: uint256.NewInt(9), GasTipCap: uint256.NewInt(2), Data: data}
